@@ -133,8 +133,8 @@ func init() {
 	})
 	registerProp(&PropDef{
 		ID:    "C11",
-		Rules: []string{"M-OLD", "M-NEW", "M-DROP", "A3", "A3-TABLE", "A3-DISTINCT", "A3-REPAIR", "ERR-USE", "ERR-LOOP", "MAP-EQ"},
-		Explanation: "Decides only the parts of the aggregation law that are visible in the shape of the accumulator code, not the algebra over rows: (M-OLD) in merge and mergeRowUpdate the accumulated update's old value is only ever taken from the incoming update on the edge where the accumulator has none yet (first operation) - so it stays the first old value; (M-NEW) every assignment of its new value stores the incoming update's new value, nil (final delete) or its own; (M-DROP) addUpdate stores the merged update only on the not-empty edge of the emptiness test and removes the entry on the other - an update that cancels out disappears; (A3, A3-TABLE, A3-DISTINCT, A3-REPAIR) the in-place difference/merge algorithms only rewrite values the accumulator owns, never the first old row or an operand handed in by the caller, and a rewritten field is written back; (ERR-USE, ERR-LOOP) a merge that fails (unsupported sequence) is reported, not dropped; (MAP-EQ) no map comparison through single-value lookups.",
+		Rules: []string{"M-DROP", "A3", "A3-TABLE", "A3-DISTINCT", "A3-REPAIR", "ERR-USE", "ERR-LOOP", "ERR-DEAD", "MAP-EQ"},
+		Explanation: "Decides only the parts of the aggregation law that are visible in the shape of the accumulator code and survive its rewrites, not the algebra over rows: (A3, A3-TABLE, A3-DISTINCT, A3-REPAIR) the in-place difference/merge algorithms only rewrite values the accumulator owns - never the first old row or an operand handed in by the caller - and a field rewritten in place is written back, so the first old value and the last new value are not damaged by a later step; (M-DROP) addUpdate stores the merged update only on the not-empty edge of the emptiness test and removes the entry on the other - an update that cancels out disappears; (ERR-USE, ERR-LOOP, ERR-DEAD) a merge that fails (unsupported sequence of updates) is reported to the caller and stops the operation, it is neither dropped, overwritten nor carried past the next step; (MAP-EQ) no map comparison through single-value lookups. Provenance rules on the accumulator's old/new fields (M-OLD, M-NEW) were built and withdrawn: one of five behaviour-preserving rewrites of merge() raised them (DESIGN.md 6).",
 		NotCovered: "that modify∘modify composes to the difference between first old and last new for every column type, cancellation of overlapping set/map differences, insert∘modify = insert of the final row: value-level algebra over rows",
 	})
 	registerProp(&PropDef{
@@ -234,8 +234,14 @@ func init() {
 	registerRule(&RuleDef{ID: "GEN-ENUM", Min: 1, Doc: "enum alias names only with enum types on", Run: ruleGENENUM})
 	registerRule(&RuleDef{ID: "L-ATOM", Min: 8, Doc: "no value read from a guarded field is used in a later critical section of the same lock (split critical section / check-then-act)", Run: ruleLATOM("client", "cache", "server", "database/inmemory")})
 	add("C05", "L-ATOM")
-	registerRule(&RuleDef{ID: "M-OLD", Min: 1, Doc: "the accumulated update keeps its first old value (pass also emits M-NEW)", Run: ruleMOLDNEW})
-	registerRule(&RuleDef{ID: "M-NEW", Min: 3, Doc: "the accumulated update's new value is the incoming one, nil, or its own (emitted by M-OLD)", Run: noop})
+	registerRule(&RuleDef{ID: "T-WARM", Min: 1, Doc: "every row listed from the database inside a transaction is reconciled with the transaction cache before it is handed to an operation", Run: ruleTWARM})
+	add("C03", "T-WARM")
+	add("C11", "T-WARM")
+	add("C08", "T-WARM")
+	registerRule(&RuleDef{ID: "ERR-DEAD", Min: 60, Doc: "the error result of a call into the repository is read (not overwritten before any test, not dropped)", Run: ruleERRDEAD("database/transaction", "database/inmemory", "database", "updates", "server")})
+	add("C02", "ERR-DEAD")
+	add("C03", "ERR-DEAD")
+	add("C19", "ERR-DEAD")
 	registerRule(&RuleDef{ID: "M-DROP", Min: 2, Doc: "an accumulated update that became empty is removed, and only non-empty ones are stored", Run: ruleMDROP})
 	registerRule(&RuleDef{ID: "T-UUIDFREE", Min: 1, Doc: "an insert's uuid is checked to be free before the update is built", Run: ruleTUUIDFREE})
 	add("C02", "T-UUIDFREE")
